@@ -210,6 +210,7 @@ type Cluster struct {
 	observer         *SimNode
 	synthetic        bool
 	synthNears       [][2]string
+	keptShadows      []*keptShadow
 	realStart        time.Time
 	hostileSeen      bool
 	ffAccepted       *ffTriple
